@@ -621,7 +621,11 @@ fn collect_changes(
                         .filter(|_| updates.entity_visibility() != Visibility::Gained)
                         .filter(|_| !ticks.is_added(change_tick.last_run(), change_tick.this_run()))
                     {
-                        if ticks.is_changed(tick, change_tick.this_run()) && send_mutations {
+                        if !ticks.is_changed(tick, change_tick.this_run()) {
+                            continue;
+                        }
+
+                        if send_mutations {
                             if !mutations.entity_added() {
                                 let graph_index = related_entities.graph_index(entity.id());
                                 let entity_range = write_entity_cached(
@@ -647,6 +651,10 @@ fn collect_changes(
                                 component_rule.fns_id,
                             );
                             mutations.add_component(component_range);
+                        } else if matches!(component_rule.send_rate, SendRate::Periodic(_)) {
+                            // The mutation will be sent on one of the next ticks,
+                            // the entity shouldn't be confirmed before that.
+                            mutations.skip_entity_ack();
                         }
                     } else {
                         if !updates.changed_entity_added() {
